@@ -4,11 +4,54 @@
    backend); under every one of them the stored documents, counts and all query
    answers must equal the reference (hence each other). *)
 From Coq Require Import List NArith ZArith Bool.
-From Semadb Require Import Bytes Pack Value Obs Run_C01 Run_C02 Run_C03 Run_C04 Run_C05.
+From Semadb Require Import Bytes Pack Value Obs Model_C01 Model_C02 Run_C01 Run_C02 Run_C03 Run_C04 Run_C05.
 Import ListNotations.
 Open Scope N_scope.
 
+(* ---- warm = cold on the SAME file: the requests of a step are answered by the running instance and by a
+   fresh instance over a copy of the file; the two answers must agree (same distances / scores in the same
+   order; ids may differ only between rows with equal distance or score) ---- *)
+Fixpoint find_cold (xs : list extra) : option (list (request * qout)) :=
+  match xs with
+  | [] => None
+  | XCold qs :: _ => Some qs
+  | _ :: r => find_cold r
+  end.
+Definition opt_eqb (a b : option N) : bool :=
+  match a, b with Some x, Some y => x =? y | None, None => true | _, _ => false end.
+Definition row_key_eqb (a b : row) : bool := opt_eqb (r_dist a) (r_dist b) && opt_eqb (r_score a) (r_score b).
+Definition rows_equiv (w c : list row) : bool :=
+  (length w =? length c)%nat &&
+  list_eqb row_key_eqb w c &&
+  forallb (fun x => existsb (fun y => Model_C02.mem_bytes (r_id x) [r_id y] ) c
+                    || existsb (fun y => row_key_eqb x y && negb (Model_C02.mem_bytes (r_id y) (map r_id w))) c) w.
+Definition ranked_request (r : request) : bool :=
+  match rq_query r with QFlat _ _ _ _ _ | QVamana _ _ _ _ _ _ => true | _ => false end.
+Fixpoint warm_cold_code (w c : list (request * qout)) : N :=
+  match w, c with
+  | (rq, QRows rw) :: w', (_, QRows rc) :: c' =>
+      if ranked_request rq
+      then (if rows_equiv rw rc then warm_cold_code w' c' else 113)
+      else (if Model_C01.same_ids (map r_id rw) (map r_id rc) then warm_cold_code w' c' else 113)
+  | (_, QError _) :: w', (_, QError _) :: c' => warm_cold_code w' c'
+  | [], [] => 0
+  | _, _ => 114
+  end.
+Fixpoint warm_cold_steps (i : N) (steps : list step) : N :=
+  match steps with
+  | [] => 0
+  | st :: rest =>
+      match s_out st, find_cold (s_extra st) with
+      | OCrash _, _ => 0
+      | _, None => warm_cold_steps (i + 1) rest
+      | _, Some cold =>
+          let c := warm_cold_code (s_queries st) cold in
+          if c =? 0 then warm_cold_steps (i + 1) rest else c + 1000 * (i + 1)
+      end
+  end.
+
 Definition verdict (h : hist) : N :=
+  let c0 := warm_cold_steps 0 (h_steps h) in if negb (c0 =? 0) then c0 else
   let c1 := Run_C01.verdict h in if negb (c1 =? 0) then c1 else
   let c2 := Run_C02.verdict_lenient h in if negb (c2 =? 0) then c2 else
   let c4 := Run_C04.verdict h in if negb (c4 =? 0) then c4 else
